@@ -32,7 +32,7 @@ def cases(draw, strategy=None):
   strategy = strategy or draw(st.sampled_from(cachesim.STRATEGIES))
   lag = draw(st.sampled_from([0, 5])) if strategy != 'timesorted' else draw(st.sampled_from([0, 5, 5]))
   tss = [T0 - 100, T0 - 3, T0, T0 + 2]
-  counter = [0]
+  counter = [-1]       # values are unique ids 0, 1, 2, ...: the first one is the falsy 0
   recv = []
   for _ in range(draw(st.integers(1, 8))):
     k = draw(st.integers(0, 7))
